@@ -24,7 +24,9 @@ SIGMA = ['A', 'Z', 'a', 'E', '0', '1', '9', ' ', '.', ':', '$', '!', '#', '"', "
          '^', '&', '=', '<', '>', '%', '×', '÷', '≥', '≤', '≠']
 FRAG = ['SUM(', 'A1', '$B$2', ':', '"a""b"', "'x y'", "''", '1E+5', '1.5E-3', ',', ';', '{', '}', '(', ')', ' ', '#REF!', '#N/A', 'TRUE',
         'Sheet 1::Table 1::', '≥', '×', '%', '-', '+', '&', '<>', '<=', '::', '"', "'", "'a':'b'", '"', 'IF(', '1E', '9.5E', '#DIV/0!', "'10%'",
-        'Table 1::A1:B2', '{1,2;3,4}', '""', "'it''s'", '\t', '\n', 'é', '数', '𝔘']
+        'Table 1::A1:B2', '{1,2;3,4}', '""', "'it''s'", '\t', '\n', 'é', '数', '𝔘',
+        # error literals in the case the user typed them, qualifiers in front of quoted names, names next to what can follow them
+        '#ref!', '#n/a', '#Div/0!', '#Value!', '#NAME?', '#name?', '#NUM!', '#null!', "Table 1::'a-b'", "Sheet 2::Table 1::'10%'", "::'x'", '$A$1', 'A$1:$B2', 'a1', 'true', 'Sum(']
 ENUM_SHARDS = 32
 
 
